@@ -144,6 +144,14 @@ Lemma copy_pos_err_spec : forall st, copy_pos_err st = (st <? 2)%Z.
 Proof. reflexivity. Qed.
 Lemma copy_shape_err_spec : forall st, copy_shape_err st = (st <? 3)%Z.
 Proof. reflexivity. Qed.
+(* holds for both shapes the translator accepts (plain copy, or through _known_error) *)
+Lemma copied_err_keeps : forall e, 0 < e \/ e = -(1 # 1) -> copied_err e = e.
+Proof.
+  intros e H. unfold copied_err.
+  first [ reflexivity
+        | destruct H as [H | ->]; [apply Qltb_iff in H; rewrite H; reflexivity | reflexivity] ].
+Qed.
+
 Lemma flag_PRIORIZED_spec : flag_PRIORIZED = 64%Z.
 Proof. reflexivity. Qed.
 Lemma flag_FIXED2PSF_spec : flag_FIXED2PSF = 4%Z.
